@@ -16,15 +16,26 @@ Pairs   == StrUpTo(Letters, NP) \X StrUpTo(Letters, NP)
 
 ASSUME LawsOneDelim == \A s \in One(",") : RunLaws(s, {","})
 ASSUME LawsTwoDelim == \A s \in Two : RunLaws(s, {",", ";"})
+ASSUME LawsNoDelim  == \A s \in One(",") : MaxRuns(s, {}) = (IF s = <<>> THEN <<>> ELSE <<s>>)
 ASSUME LawsPrefix   == \A p \in Pairs : PrefixLaws(p[1], p[2])
 
 SplitExp(s, D) == LET r == MaxRuns(s, D) IN [tokens |-> JoinAll(r), tokens_joined |-> Join(NonDelim(s, D))]
+
+\* split(s, d) and split(s, d, false) are the same call
+SplitExp2(s, D) == SplitExp(s, D) @@ [tokens_explicit |-> JoinAll(MaxRuns(s, D))]
 
 Cases ==
      {[a |-> "SplitChar", arg |-> [s |-> Join(s), d |-> ","], cls |-> TokClass(MaxRuns(s, {","})),
        exp |-> SplitExp(s, {","})] : s \in One(",")}
 \cup {[a |-> "SplitSet", arg |-> [s |-> Join(s), d |-> ",;"], cls |-> TokClass(MaxRuns(s, {",", ";"})),
-       exp |-> SplitExp(s, {",", ";"})] : s \in Two}
+       exp |-> SplitExp2(s, {",", ";"})] : s \in Two}
+\* the empty delimiter set: the whole (non-empty) string is the only token
+\cup {[a |-> "SplitSet", arg |-> [s |-> Join(s), d |-> ""], cls |-> "nodelim", exp |-> SplitExp2(s, {})] : s \in One(",")}
+\* the output vector of tokenize used for two calls in a row (an earlier, possibly longer, input): what the first call
+\* returns is determined; after the second call the vector holds the second call's tokens, preceded or not by the first
+\* call's (judged by C18Validate)
+\cup {[a |-> "TokenizeReuse", arg |-> [s1 |-> Join(p[1]), s2 |-> Join(p[2]), d |-> ":"], cls |-> "",
+       exp |-> [first |-> JoinAll(MaxRuns(p[1], {":"}))]] : p \in StrUpTo({"a", ":"}, 4) \X StrUpTo({"a", ":"}, 3)}
 \cup {[a |-> "Tokenize", arg |-> [s |-> Join(s), d |-> ":"], cls |-> TokClass(MaxRuns(s, {":"})),
        exp |-> SplitExp(s, {":"})] : s \in One(":")}
 \cup {[a |-> "Lcp", arg |-> [x |-> Join(p[1]), y |-> Join(p[2])], cls |-> "",
